@@ -29,6 +29,14 @@ DET = {
  "C07-m4": ("C07", "./check C07 --tier quick -> exit 1 (full backend, depth 10: proof of position >= 256 decodes to another position)", "missed at first; trait-level runs at depths 10 and 20 with sparse observation added"),
  "C16-m3": ("C16", "./check C16 --tier quick -> exit 1 (delete hit by an injected write failure reports ok)", ""),
  "C16-m4": ("C16", "./check C16 --tier quick -> exit 1 (crash right after an acknowledged flush: the batch written before it is gone)", "missed at first; crash points between calls with every write path isolated between two flushes added"),
+ "C01-m3": ("C01", "./check C01 --tier quick -> exit 1 (member registered by a vacate-and-reassign batch, or before a restart, is refused a proof)", "missed by the main scenario at first (only the relay replay objected, for the wrong reason: fixed); history classes swap-batch and restart on a persistent location added"),
+ "C01-m4": ("C01", "./check C01 --tier quick -> exit 1 (message with a signal above 1 MiB is not accepted)", "missed at first; one message with a 1 MiB + 4097 byte signal added"),
+ "C02-m3": ("C02", "./check C02 and ./check C16 --tier quick -> exit 1 (after a restart the deletion of the sender's leaf does nothing, the message keeps verifying)", "missed at first; verifier-restart classes on a persistent location added, and the judge demands rejection once the sender's leaf was removed (not only agreement with the root the instance itself reports)"),
+ "C02-m4": ("C02", "./check C02 --tier quick -> exit 1 (declared length + 2^32 accepted)", "missed at first; declared lengths len+2^32 / len+2^63 added (C13: also len+2^40), and the tamper classes are dealt over the messages without replacement so that every class is exercised in every run"),
+ "C08-m3": ("C08", "./check C08 --tier quick -> exit 1 (full: stale inner nodes after an unsorted removal list)", ""),
+ "C08-m4": ("C08", "./check C08 --tier quick -> exit 1 (optimal: re-hash stops early when the last parent of a level is unchanged)", ""),
+ "C15-m3": ("C15", "./check C15 --tier quick -> exit 1 (full: removal list with a repeated index wipes an unnamed position)", ""),
+ "C15-m4": ("C15", "./check C15 --tier quick -> exit 1 (pm: empty list reported after a range write that leaves a gap)", ""),
  "C09-m1": ("C09", "./check C09 --tier quick -> exit 1 (Poseidon of 8 inputs: round certificate rejected)", ""),
  "C09-m2": ("C09", "./check C09 --tier quick -> exit 1 (byte-level / FFI hash of a 4097-byte signal differs from Keccak.tla)", "missed at first; hash-to-field lengths 4095, 4096, 4097 (8192, 10000 thorough) added"),
  "C11-m1": ("C11", "./check C11 --tier quick -> exit 1 (metadata after set_tree differs between FFI and API)", "missed at first; life-cycle scenario and set_tree inside random histories added"),
